@@ -255,6 +255,12 @@ def main(argv=None):
                     (known_hits if k else violations).append((r, path, k))
                 else:
                     harness_errors.append("reach witness of %s[%s] does not replay: %s" % (r["fn"], r["case"], rr))
+            elif r["status"] in ("inconclusive", "timeout") and not r.get("retried"):
+                # a loaded machine can starve the twin: one retry with a long budget before calling it vacuous
+                r2 = run_crosshair(modname, r["fn"], r["case"], True, r["opt"], 300, 120)
+                r2["retried"] = True
+                results.append(r2)
+                continue
             else:
                 harness_errors.append("reachability twin of %s[%s]%s not refuted (%s): vacuous harness? %s %s"
                                       % (r["fn"], r["case"], " -O" if r["opt"] else "", r["status"], r["message"], r["stderr_tail"]))
